@@ -1009,6 +1009,11 @@ class RefCircuit(Model):
         for n in c:
             if f"{name}_{n}" in self.graph:
                 raise ModelRaise("ValueError", "name overlap")
+        # the pins are still the instance's pins (the caller may have removed or replaced one): otherwise refused
+        for pins_, ptype_ in ((bb.inputs(), "bb_input"), (bb.outputs(), "bb_output")):
+            for pn_ in pins_:
+                if f"{name}.{pn_}" not in self.graph or self.graph._node[f"{name}.{pn_}"].get("type") != ptype_:
+                    raise ModelRaise("ValueError", "a pin of the instance is missing or replaced")
         # the wiring rules hold for the merged nodes too: an output of `c` that is a pin of one of its own blackboxes cannot take
         # over the loads of the pin it replaces (a blackbox input has no fan-out, a blackbox output one load)
         for o in c.outputs():
